@@ -90,6 +90,18 @@ def implOK (bf : Nat) (p : Params) (uxb : List UxB) (impl : String) : Bool :=
         | none => (outs.drop p.to.length).all (fun o => inputs.any (·.addr == o.addr))))
   && inH ≥ outH && inH - outH ≥ ceilDiv inH bf                                       -- burns at least the required fee
 
+/-- `choose_complete`, evaluated on an implementation answer: a failure for lack of funds although
+the offered coins cover the request and the offered hours cover it after the fee (charged once on
+the total) -/
+def lackErr (impl : String) : Bool :=
+  impl == "err Error(ErrInsufficientHours)" || impl == "err Error(ErrInsufficientBalance)"
+
+def fundsSuffice (bf : Nat) (uxb : List UxB) (coins hours : Nat) : Bool :=
+  let c := (uxb.map (·.coins)).foldl (· + ·) 0
+  let h := (uxb.map (·.hours)).foldl (· + ·) 0
+  c < 2^64 && h < 2^64 && bf ≥ 1 && coins > 0 && uxb.all (·.coins > 0) && uxb.any (·.hours ≠ 0) &&
+  c ≥ coins && remaining bf h ≥ hours
+
 def userErr (impl : String) : Bool :=
   impl.startsWith "err Error(" || impl == "err ErrTxnNoFee"
 
@@ -113,6 +125,10 @@ def stepCreate (ws : List String) (impl : String) : String × Verdict :=
       | .ok uxb => if implOK bf p uxb impl then (m, .unknown) else ("well-formed result demanded; model: " ++ m, .fail)
       | _ => (m, .unknown)
     else if !userErr impl && realistic uxs to then ("user-level error or a transaction demanded; model: " ++ m, .fail)
+    else if lackErr impl && (match mkUxBs head uxs with
+        | .ok uxb => fundsSuffice bf uxb ((to.map (·.coins)).foldl (· + ·) 0) ((to.map (·.hours)).foldl (· + ·) 0)
+        | _ => false) then
+      ("failed for lack of funds although the offered coins and hours (after the fee on the total) suffice; model: " ++ m, .fail)
     else (m, .unknown)
 
 def showNats (l : List Nat) : String := if l.isEmpty then "-" else ",".intercalate (l.map toString)
@@ -131,10 +147,13 @@ def step (op impl : String) : String × Verdict :=
       (match (field "bf=" ws).toNat?, (field "coins=" ws).toNat?, (field "hours=" ws).toNat?,
              (items (field "ux=" ws)).mapM parseUxB with
        | some bf, some c, some h, some uxb =>
-           (match chooseSpends bf uxb c h with
+           let m := match chooseSpends bf uxb c h with
             | .ok sp => "ok " ++ ",".intercalate (sp.map (hexN 32 ·.hash))
             | .err e => "err " ++ e.toString
-            | .panic _ => "panic", .unknown)
+            | .panic _ => "panic"
+           if lackErr impl && fundsSuffice bf uxb c h then
+             ("choose_complete: lack-of-funds error although coins and hours suffice; model: " ++ m, .fail)
+           else (m, .unknown)
        | _, _, _, _ => ("bad-op", .unknown))
   | some "prop" =>
       (match (field "hours=" ws).toNat?, (items (field "coins=" ws)).mapM (·.toNat?) with
